@@ -461,7 +461,7 @@ def run(m: Model, r: Report, tier: str) -> None:
         {ast.unparse(first.test.left), ast.unparse(first.test.comparators[0])} == {"self.service_id", "request.service_id"} and \
         isinstance(first.body[0], ast.Return) and ast.unparse(first.body[0].value) == "False"
     r.check(ok_first, "R5", f"{f.qualname}#service-id-first", "a raw positive response of another service must be refused first", loc=f.loc)
-    echo_rets = [n.value for n in ast.walk(f.node) if isinstance(n, ast.Return) and isinstance(n.value, ast.Compare) and "echo_length" in ast.unparse(n.value)]
+    echo_rets = [n.value for n in ast.walk(f.node) if isinstance(n, ast.Return) and isinstance(n.value, ast.Compare) and "request.pdu[" in ast.unparse(n.value)]
     r.check(len(echo_rets) == 1 and isinstance(echo_rets[0].ops[0], ast.Eq), "R5", f"{f.qualname}#echo-equality",
             "the echoed bytes must be compared for equality", loc=f.loc)
     slices = [n for n in walk_no_nested(f.node) if isinstance(n, ast.Subscript) and isinstance(n.slice, ast.Slice)
@@ -478,7 +478,8 @@ def run(m: Model, r: Report, tier: str) -> None:
                 parts = [up.left, up.right]
                 names = [x for x in parts if isinstance(x, ast.Name)]
                 consts = [m.try_fold(f.module, x) for x in parts if not isinstance(x, ast.Name)]
-                width_ok = len(names) == 1 and names[0].id == "echo_length" and consts == [lo]
+                tbl_names = {ast.unparse(a.targets[0]) for a in ast.walk(f.node) if isinstance(a, ast.Assign) and "UDSIsoServicesEchoLength[" in ast.unparse(a.value)}
+                width_ok = len(names) == 1 and names[0].id in tbl_names and consts == [lo]
         r.check(lo == 1 and width_ok, "R5", f"{f.qualname}#{ast.unparse(s.value)}",
                 f"echo slice {ast.unparse(s)} does not cover bytes 1 .. echo_length: the last echoed byte is not compared "
                 "or the service id byte is included", loc=f.loc)
